@@ -78,7 +78,7 @@ pub fn all() -> Vec<CheckSpec> {
         CheckSpec {
             prop: "C10",
             engine: "E2-reuse-history",
-            runs_quick: 12000,
+            runs_quick: 60000,
             runs_thorough: 4000000,
             run: e2::run_c10,
             rule: "one run = one seeded history (10-60 operations, 1-3 logical workers, 2-5 random multi-output functions over all opcodes, one backend of VM<3>/VM<8>/VM<255>/JIT) of {build, point/interval/float-slice/grad-slice evaluation with the worker's kept evaluator and a tape built into fresh or recycled storage, simplify with kept workspace and recycled function storage, cross-budget simplify, recycle, clone handle, hand storage to another worker, re-evaluate a tape held across other operations, RenderHandle episode}; after every operation the result is compared with the same call on fresh objects. distinct_nontrivial = number of distinct history signatures (hash of the whole operation/provenance/result log) among runs in which at least one reuse fault kind fired",
@@ -94,7 +94,7 @@ pub fn all() -> Vec<CheckSpec> {
         CheckSpec {
             prop: "C04",
             engine: "E2-reuse-history",
-            runs_quick: 10000,
+            runs_quick: 50000,
             runs_thorough: 3000000,
             run: e2::run_c04,
             rule: "same history engine as C10 weighted towards simplification chains (depth <= 6): traces come from VM/JIT point and interval evaluators run with reused evaluator objects, children are produced with reused workspaces, recycled storage, other register budgets and through RenderHandle's trace-keyed cache; after every simplification parent and child are compared bit for bit at the traced point or at 6 points of the traced box under point, float-slice and grad-slice evaluation with fresh evaluators. distinct_nontrivial = distinct history signatures among runs with at least one reuse fault kind",
@@ -109,7 +109,7 @@ pub fn all() -> Vec<CheckSpec> {
         CheckSpec {
             prop: "C14",
             engine: "E3-ident-sim",
-            runs_quick: 30000,
+            runs_quick: 120000,
             runs_thorough: 3500000,
             run: e3::run_c14,
             rule: "one run = one fresh OS thread whose HashMap keys and Var::new() ids come from the seeded getrandom seam; a drawn expression over a subset of {X,Y,Z} and 0-40 variables met in a drawn traversal order, values supplied in a drawn order with extras and (separately) one missing, optional affine/projective transform, backend VM/JIT/VM<3>; point (all entry points), interval, float-slice (fixed values and per-sample arrays), grad-slice and post-simplification evaluation compared with Context::eval on an explicit HashMap<Var,f32>. distinct_nontrivial = number of distinct variable-to-slot assignments (hash of the (variable, slot) pairs the compiler produced) among runs with >= 2 variables",
@@ -125,7 +125,7 @@ pub fn all() -> Vec<CheckSpec> {
         CheckSpec {
             prop: "C19",
             engine: "E3-ident-sim",
-            runs_quick: 10000,
+            runs_quick: 40000,
             runs_thorough: 4000000,
             run: e3::run_c19,
             rule: "one run = one fresh OS thread with seeded HashMap keys / Var ids (so the iteration order of the caller's parameter map, which is the Jacobian column packing, is drawn per run); a consistent, diagonally dominant sparse linear system with 1-40 parameters, a drawn subset fixed, drawn equation/term order, solved by the real fidget_solver::solve with VM and JIT functions; key set, residual (harness f64), fixed-as-constant (a fixed value is moved and the system re-solved), fixed point for exactly satisfied systems, backend agreement. distinct_nontrivial = distinct (column order, free count) signatures among runs with >= 2 free parameters",
